@@ -317,6 +317,7 @@ package badger
 //@   ensures[pending-untracked] old(pendingHit(txn, key)) ==> txn.reads == old(txn.reads)
 //@   ensures[error-no-item] rerr != nil ==> item == nil
 //@   assert[read-tracked] before call addReadKey : arg1 == key
+//@   assert[every-lookup-tracked] before return : txn.update && called(KeyWithTs#1) ==> called(addReadKey)
 //@   assert[seek-at-read-ts] before call KeyWithTs : arg0 == key && arg1 == txn.readTs
 //@   assert[lookup-seek] before call get : arg1 == ret(KeyWithTs#1)
 //@   assert[lsm-not-found] before return : called(isDeletedOrExpired#2) && rerr == nil ==> !(ret(get#1).Value == nil && ret(get#1).Meta == 0) && !gone(ret(get#1).Meta, ret(get#1).ExpiresAt, now)
@@ -480,3 +481,20 @@ package badger
 //@   ensures[increasing] result1 == nil ==> seq.next == result0 + 1
 //@   ensures[unlocked] !held(seq.lock)
 //@   assigns everything
+
+// Iterator reads are tracked for conflict detection (C02): the key of every item handed out,
+// and every non-empty seek key, forward or reverse.
+//@ func (*Iterator).Item
+//@   props C02
+//@   light
+//@   assert[item-key-tracked] before call addReadKey : arg0 == it.txn && arg1 == ret(Key#1)
+//@   assert[always-tracked] before return : called(addReadKey)
+
+//@ func (*Iterator).Seek
+//@   props C02 C05 C01
+//@   light
+//@   assert[seek-key-tracked] before call addReadKey : arg0 == it.txn && arg1 == key
+//@   assert[every-seek-tracked] before return : old(it.iitr != nil) && old(len(key)) > 0 ==> called(addReadKey)
+//@   assert[forward-at-read-ts] before call KeyWithTs#1 : !it.opt.Reverse && arg1 == it.txn.readTs
+//@   assert[reverse-at-zero] before call KeyWithTs#2 : it.opt.Reverse && arg1 == 0
+//@   assert[seek-encoded] before call Seek : (called(KeyWithTs#1) ==> arg1 == ret(KeyWithTs#1)) && (called(KeyWithTs#2) ==> arg1 == ret(KeyWithTs#2)) && (called(KeyWithTs#1) || called(KeyWithTs#2))
